@@ -65,6 +65,9 @@ def confirm(v, oracle):
             'what': '%s lexical value %s prints as %r and parses to %s' % (v['fmt'], json.dumps(p['value'], ensure_ascii=False)[:100], p['text'], json.dumps(p['parsed'], ensure_ascii=False)[:140])}
 
 def key_of(v):
+    # Han: a name that ends with the first char of a two-char keyword merges with the following keyword
+    if v['fmt'] == 'han' and v['shape'].startswith('statement'):
+        return 'han:name-plus-copula-reads-as-longer-copula'
     return '%s:%s' % (v['fmt'], v['shape'].split('#')[0])
 
 def shapes_for(voc, tier):
@@ -104,6 +107,7 @@ def shapes_for(voc, tier):
 def main(tier, seed):
     from framework import Runner, Query
     R = Runner('C02', tier, seed); R.setup()
+    R.blocks = models_str.STD_BLOCKS if tier == 'quick' else None       # quick: names over Latin, CJK, fullwidth and pictograph blocks; thorough: all of Unicode
     R.assumptions += ['values: every keyword of the lexical format\'s own tables in its role, arities 1..3 (quick: 2), nestings to depth 4, truth/budget lists of 0..4 numeric strings; names 1 (and 2) symbolic identifier chars containing no keyword',
                       'stamp strings are the format\'s own stamp forms (fixed stamps with a small integer)']
     it = R.engine.new_interp()
@@ -112,7 +116,6 @@ def main(tier, seed):
         shapes = shapes_for(voc, tier)
         if tier == 'quick' and fmt == 'han':
             import c01
-            shapes = [(nm, c01.subst_names_partial(sp)) for nm, sp in shapes]
         plist = [dict(fmt=fmt, name=nm, spec=sp) for nm, sp in shapes]
         R.run_query(Query('lexical-roundtrip/' + fmt, 'c02', 'path', plist, '%d lexical value shapes over the format\'s own vocabulary' % len(shapes)), confirm, key_of)
     return R.finish(rule='one state = one path of lexical formatter + lexical parser on one value shape with symbolic names', trusted=['rustc MIR (crate + nar_dev_utils)', 'mirsym + std models (validated per path)', 'z3'])
